@@ -18,7 +18,7 @@ from pyvc.interp import Interp, PathState
 from pyvc.treeheap import LinksHeap
 from pyvc.values import IdStr, Num, Obj, OutOfSubset, PyRaise
 
-from .common import REPO, Result, load_known, run_venv
+from .common import REPO, Result, load_known, run_venv, tierb_json
 
 EXPR_KINDS = (
     "NegateExpression", "FactorialExpression", "AbsExpression", "SgnExpression",
@@ -265,7 +265,7 @@ def run(tier: str, seed: int) -> int:
     if p.returncode not in (0, 1):
         R.engine_errors.append("tier-B failed: " + p.stderr[-300:])
     else:
-        bounded = json.loads(p.stdout)
+        bounded = tierb_json(p, R)
         from .common import match_known
 
         for f in bounded.get("failures", []):
